@@ -30,7 +30,10 @@ type Env struct {
 	bound    map[string]Value
 	depth    int
 	inOld    bool
+	atCallSite bool // evaluating a callee's ensures for assumption: trace functions are not available
 }
+
+type traceAtCallSite struct{}
 
 // SpecError is panicked for ill-formed contract expressions.
 type SpecError struct{ Msg string }
